@@ -53,6 +53,15 @@ main(int argc, char **argv)
 		return (2);
 	}
 	tran = argv[1];
+	// "<transport>-nb": the requester dials in the BACKGROUND (NNG_FLAG_NONBLOCK): a failure inside the background dial
+	// must leave the dialer able to redial by itself
+	static char tranbuf[32];
+	bool        nb = false;
+	if (strlen(tran) > 3 && strcmp(tran + strlen(tran) - 3, "-nb") == 0 && strlen(tran) < sizeof(tranbuf)) {
+		snprintf(tranbuf, sizeof(tranbuf), "%.*s", (int) strlen(tran) - 3, tran);
+		tran = tranbuf;
+		nb   = true;
+	}
 	k    = atol(argv[2]);
 	setvbuf(stdout, NULL, _IOLBF, 0);
 	signal(SIGALRM, on_alarm);
@@ -100,7 +109,17 @@ main(int argc, char **argv)
 		snprintf(url, sizeof(url), "%s://127.0.0.1:%d%s", tran, port, strcmp(tran, "ws") == 0 ? "/af" : "");
 	}
 	if (req_open && listening) {
-		dialed = step("dial", nng_dial(req, url, NULL, 0)) == 0;
+		if (!nb) {
+			dialed = step("dial", nng_dial(req, url, NULL, 0)) == 0;
+		} else if (step("dial", nng_dial(req, url, NULL, NNG_FLAG_NONBLOCK)) == 0) {
+			// the dialer connects (or, after a failed attempt, redials) by itself: a request must get through within 3 s
+			// (REQ queues the request until a pipe is there)
+			nng_socket_set_ms(req, NNG_OPT_SENDTIMEO, 3000);
+			nng_socket_set_ms(req, NNG_OPT_RECVTIMEO, 3000);
+			nng_socket_set_ms(rep, NNG_OPT_RECVTIMEO, 3000);
+			nng_socket_set_ms(req, NNG_OPT_REQ_RESENDTIME, 200);
+			dialed = true;
+		}
 	}
 	if (dialed) {
 		nng_msg *m = NULL, *r = NULL;
@@ -136,13 +155,18 @@ main(int argc, char **argv)
 			}
 			if (step("after_dial", rv) == 0 && step("after_req_send", nng_send(req2, "pong", 5, 0)) == 0) {
 				// a request of the first requester may still be queued in front of ours
-				for (int i = 0; i < 3; i++) {
+				// (requests of the first requester - resent ones too - may be queued in front of ours)
+				for (int i = 0;; i++) {
 					rv = nng_recvmsg(rep, &m, 0);
 					if (rv != 0 || (nng_msg_len(m) == 5 && memcmp(nng_msg_body(m), "pong", 5) == 0)) {
 						break;
 					}
 					nng_msg_free(m);
 					m = NULL;
+					if (i >= 40) {
+						rv = NNG_ETIMEDOUT;
+						break;
+					}
 				}
 				if (step("after_rep_recv", rv) == 0) {
 					if (step("after_rep_send", nng_sendmsg(rep, m, 0)) != 0) {
